@@ -97,5 +97,8 @@ pub fn gen_domain_map(rng: &mut Rng, mix: &Mix, dom: Domain) -> Option<(MapCase,
 
 pub fn pick_mode(rng: &mut Rng, map: &Beatmap) -> GameMode {
     let r = maps::reachable_modes(map);
+    if r.len() > 1 && rng.chance(0.3) {
+        return map.mode;
+    }
     *rng.pick(&r)
 }
